@@ -406,7 +406,9 @@ Definition host_step (run_dyn : bool) (p : hpair) : hres :=
 
 Record step_in := mkSI {
   si_committed : bool;       (* config.hasCommittedData() *)
-  si_other_changed : bool;   (* global / tcp backends / tcp services / frontend / userlists differ *)
+  si_other_changed : bool;   (* checkConfigChange's diffs that are plain flags: global / tcp backends /
+                                tcp services / frontend / userlists differ, or the default backend is not
+                                the one of the last Commit (Backends.DefaultBackendChanged) *)
   si_host_removed : bool;    (* an ItemsDel host without an ItemsAdd one *)
   si_back_removed : bool;    (* an ItemsDel backend without an ItemsAdd one: backendUpdated, `pair.cur == nil` *)
   si_hosts : list hpair;     (* ItemsAdd hosts, with the ItemsDel one of the same name *)
